@@ -121,20 +121,24 @@ theorem buffered_until_first_add (env : Env) (p : Block) (hp : p.noCfg = true) :
   exact ⟨h1, h4, h5', h5' ▸ trim1000_suffix _, h5' ▸ trim1000_length _⟩
 
 /-! ### the first `add_destinations` hands the buffer over, later ones do not -/
+/-- the state in which the first `add_destinations(*ds)` starts re-delivering the buffer -/
+abbrev startW (w : World) (ds : List Nat) : World :=
+  { w with anyAdded := true, dests := ds, buffer := [], pendingAt := w.bufferAt, bufferAt := [], dupAdd := w.dupAdd || hasDup ds }
+
 theorem fan_foldSend (env : Env) (buf : List Msg) (w : World) :
-    Fan env w (buf.foldl (fun acc m => acc.send env m) w) := by
+    Fan env w (buf.foldl (fun acc m => acc.popPending.send env m) w) := by
   induction buf generalizing w with
   | nil => exact Fan.refl env w
-  | cons m ms ih => exact (fan_send env w m).trans (ih _)
+  | cons m ms ih => exact ((Fan.ofSame rfl rfl rfl rfl rfl : Fan env w w.popPending).trans (fan_send env w.popPending m)).trans (ih _)
 
 theorem foldSend_healthy_stage (env : Env) (hh : ∀ d k, env.destFails d k = none) (buf : List Msg) (w : World) :
-    (buf.foldl (fun acc m => acc.send env m) w).stage = w.stage ++ buf.map (fun m => Fields.update m w.globals) := by
+    (buf.foldl (fun acc m => acc.popPending.send env m) w).stage = w.stage ++ buf.map (fun m => Fields.update m w.globals) := by
   induction buf generalizing w with
   | nil => simp
   | cons m ms ih =>
     simp only [List.foldl_cons, List.map_cons]
-    rw [ih, send_healthy_stage env hh, (frame_send env w m).globals]
-    simp
+    rw [ih, send_healthy_stage env hh, (frame_send env w.popPending m).globals]
+    simp [World.popPending]
 
 /-- once destinations were added the buffer is never touched again -/
 def KeepBuf (w w' : World) : Prop := w.anyAdded = true → w'.anyAdded = true ∧ w'.buffer = w.buffer
@@ -179,10 +183,11 @@ theorem keepBuf_basic (env : Env) : BasicD env KeepBuf where
   succ := fun w h a fs _ ha => ⟨ha, rfl⟩
 
 theorem keepBuf_foldSend (env : Env) (buf : List Msg) (w : World) :
-    KeepBuf w (buf.foldl (fun acc m => acc.send env m) w) := by
+    KeepBuf w (buf.foldl (fun acc m => acc.popPending.send env m) w) := by
   induction buf generalizing w with
   | nil => exact (keepBuf_basic env).refl w
-  | cons m ms ih => exact (keepBuf_basic env).trans ((keepBuf_basic env).send w m) (ih _)
+  | cons m ms ih =>
+    exact (keepBuf_basic env).trans ((keepBuf_basic env).trans (fun h => ⟨h, rfl⟩ : KeepBuf w w.popPending) ((keepBuf_basic env).send _ m)) (ih _)
 
 /-- **first_add_delivers_buffer**: the first `add_destinations(*ds)` offers to each of its
 destinations, exactly once and in order, exactly what is re-sent (the buffered messages, each merged
@@ -195,21 +200,21 @@ theorem first_add_delivers_buffer (env : Env) (w : World) (ds : List Nat) (hn : 
     (∀ d, d ∉ ds → offeredTo w' d = offeredTo w d) ∧
     ((∀ d k, env.destFails d k = none) → newStage w w' = w.buffer.map (fun m => Fields.update m w.globals)) := by
   intro w'
-  have e : w' = w.buffer.foldl (fun acc m => acc.send env m) { w with anyAdded := true, dests := ds, buffer := [] } := by
-    simp only [w', World.addDests, ha, Bool.false_eq_true, ↓reduceIte]
-  have g := fan_foldSend env w.buffer { w with anyAdded := true, dests := ds, buffer := [] }
-  have kb := keepBuf_foldSend env w.buffer { w with anyAdded := true, dests := ds, buffer := [] } rfl
+  have e : w' = w.buffer.foldl (fun acc m => acc.popPending.send env m) (startW w ds) := by
+    simp only [w', World.addDests, ha, Bool.false_eq_true, ↓reduceIte, startW]
+  have g := fan_foldSend env w.buffer (startW w ds)
+  have kb := keepBuf_foldSend env w.buffer (startW w ds) rfl
   rw [e]
   refine ⟨g.anyAdded, g.dests, kb.2, ?_, ?_, ?_⟩
   · intro d hd
     have := g.off rfl hn d hd
-    simpa [offeredTo, newStage] using this
+    simpa [offeredTo, newStage, startW] using this
   · intro d hd
     have := g.other d hd
-    simpa [offeredTo] using this
+    simpa [offeredTo, startW] using this
   · intro hh
-    have := foldSend_healthy_stage env hh w.buffer { w with anyAdded := true, dests := ds, buffer := [] }
-    simp [newStage, this]
+    have := foldSend_healthy_stage env hh w.buffer (startW w ds)
+    simp [newStage, this, startW]
 
 /-- **later_add_gets_nothing_old**: destinations added after the first call are only appended to
 the list: nothing is re-sent to them (or to anybody). -/
@@ -324,6 +329,7 @@ theorem globOK_basic (env : Env) : Basic env GlobOK where
   callDest := fun w d m h => by rw [(frame_callDest env w d m).globals]; exact h
   stagePush := fun _ _ h => h
   bufferSet := fun _ _ h => h
+  ghostSlot := fun _ _ _ h => h
   clock := fun _ h => h
   nextLevel := fun w p h => by rw [(frame_nextLevel w p).globals]; exact h
   freshAction := fun _ _ _ h => h
@@ -345,6 +351,7 @@ theorem globOK_basic (env : Env) : Basic env GlobOK where
 theorem globOK_cfg (env : Env) : BasicCfg env GlobOK where
   startDelivery := fun _ _ h => h
   extendDests := fun _ _ h => h
+  popPending := fun _ h => h
   removeDest := fun _ _ h => h
   addGlobals := fun _ fs h => h.update fs
 
